@@ -43,6 +43,24 @@ def judge(o):
     return out
 
 
+def direct_known(o):
+    """known-finding class of a run whose failed call has no counterpart in the recording (the dedup clean-up differs
+    from run to run): read off the call that was hit, as the classifiers of Model/KnownC04.v do on the model side"""
+    hit = o["hit"]
+    if not hit or o["kind"] != "F":
+        return 0
+    p = hit[1]
+    base = os.path.basename(p)
+    if base.startswith("0=ocfl_object_") and hit[0] in ("createnew", "write", "unlink"):
+        staged = "/rocfl-staging/" in p or p.startswith("~/stg/")
+        if not staged:
+            return 1
+        return 2 if not o["installed_before"] else 0
+    if hit[0] == "rmdir" and not o["installed_before"] and ("/rocfl-staging/" in p or p.startswith("~/stg/")) and "/content/" in p + "/":
+        return 3
+    return 0
+
+
 def case_input(o):
     return {"scenario": o["scn"], "inject": o["kind"], "errno_or_signal": o["what"], "point": o["point"], "set": o["set"],
             "call_of_recording": o["rec_step"], "call_hit": o["hit"]}
@@ -57,12 +75,18 @@ def evaluate(ctx, recs, outs, env, stats):
         terms.append(cl.report_term(r, injs))
         terms.append(cl.known_term(r, list(range(n))))
         terms.append(cl.follow_term(r, list(range(n))))
+        terms.append(cl.pre_term(r))
     vals = common.coq_eval("c04", cl.IMPORTS, terms, batch=1)
     pred = {}
     for k, r in enumerate(recs):
-        rep = cl.parse_coq(vals[3 * k])
-        known = cl.parse_coq(vals[3 * k + 1])
-        follow = cl.parse_coq(vals[3 * k + 2])
+        rep = cl.parse_coq(vals[4 * k])
+        known = cl.parse_coq(vals[4 * k + 1])
+        follow = cl.parse_coq(vals[4 * k + 2])
+        pre = cl.parse_coq(vals[4 * k + 3])
+        stats["hypotheses_%s" % r.scn.kind] = "commit_pre=%s same_type=%s" % (pre[0], pre[1])
+        if not r.scn.is_upgrade and not (pre[0] and pre[1]):
+            common.corr_break(ctx, "Corr.CheckCommit.pre_check (the hypotheses commit_pre / same_type of the C04 / C05 theorems hold on the abstracted real pre-state)",
+                              {"input": {"scenario": r.scn.name}, "commit_pre_b": pre[0], "same_type_b": pre[1]})
         n = len(r.steps)
         pred[id(r)] = {"perm": rep[0], "trace": rep[1], "final": rep[2], "align": rep[3],
                        "F": rep[4][:n], "S": rep[4][n:], "known": known, "follow": follow}
@@ -93,7 +117,7 @@ def evaluate(ctx, recs, outs, env, stats):
         stats[okey] = stats.get(okey, 0) + 1
         verdict = judge(o)
         midx = o["midx"]
-        kc = p["known"][midx] if (midx is not None and o["kind"] == "F") else 0
+        kc = p["known"][midx] if (midx is not None and o["kind"] == "F") else direct_known(o)
         ctx.count((o["scn"], o["kind"], o["what"], tuple(o["hit"] or ()), o["cls"], o["rc"] == 0, o["set"]), nontrivial=True,
                   sample={"input": case_input(o), "rc": o["rc"], "class": o["cls"], "follow": [f[:2] for f in o["follow"]],
                           "model": (p[o["kind"]][midx] if midx is not None else None)})
@@ -204,4 +228,8 @@ def replay(ctx, body):
     if verdict:
         ctx.violation("impl-violation", {"input": inp, "observed": {"exit_status": o["rc"], "main_object": o["cls"], "afterwards": o["follow"]},
                                          "expected": "; ".join(m for _, m in verdict)})
-    return ctx.finish(rule="replay")
+    import shutil
+    shutil.rmtree(ctx.tmp, ignore_errors=True)
+    for v in ctx.violations:
+        print("VIOLATION property=%s replay=%s" % (ctx.prop, v["replay"]), flush=True)
+    return 1 if ctx.violations else 0
